@@ -83,7 +83,7 @@ def parse_stream(impl_text, model_text):
             byid[f[1]] = cur
         elif cur is None:
             continue
-        elif l.startswith(("INST ", "LINK ", "INPUT")):
+        elif l.startswith(("INST ", "LINK ", "INPUT", "PRUNE ", "CFIRST ")):
             cur["head"].append(l)
         elif l.startswith("PART "):
             f = l.split(" ", 2)
@@ -140,8 +140,15 @@ def classify(case, p):
     if X.get("dbgsame", "1").split(" ")[0] != "1":
         return "tie", "debug and plain assembly differ: " + X.get("dbgsame", "")
     tie = ""
+    # a case written through pruned pass-through instances: pruning re-creates the attach records of the
+    # rerouted links, so their position in the attach list (not their content) may differ from the
+    # model's, which knows the graph without the pass-through: compared as a set
+    pruned = any(l.startswith("PRUNE ") for l in case["head"])
     for k in sorted(set(list(X.keys()) + list(M.keys()))):
         if k in TEXT_KEYS or k.startswith("sec.") or k.startswith("prg."):
+            if pruned and k == "att" and X.get(k) is not None and M.get(k) is not None and \
+                    sorted(X[k].split(" | ")) == sorted(M[k].split(" | ")):
+                continue
             if X.get(k) != M.get(k):
                 tie = "%s: impl=%r model=%r" % (k, X.get(k), M.get(k))
                 break
